@@ -47,6 +47,8 @@ def run_instance(inst):
     out["exc"] = "none"
     try:
         walks = m.get_solution_walks()
+        if inst.get("twice"):        # the walks of the same solution read a second time: what is reported is the second reading
+            walks = m.get_solution_walks()
         out["walks"] = [[syn.get(x, x) for x in w] for w in walks]
     except BaseException as e:
         out["exc"] = type(e).__name__
